@@ -145,6 +145,17 @@ def run(tier, seed, replay):
         tp = os.path.join(vlib.WORK, "tui", "c17-cmd%d.ndjson" % i)
         vlib.write_ndjson(tp, evs)
         traces.append(tp)
+    # a long session: more than a thousand submitted lines (history growth, navigation deep into the history, the line executed is the line typed)
+    keys = []
+    nlong = 1100 if tier == "quick" else 2600
+    for i in range(nlong):
+        keys += tc.type_line(["FC=%d", "fd=0x%x", "FE=0b%s", "ff=%d", "x%d", "next %d"][i % 6] % ((bin(i % 256)[2:],) if i % 6 == 2 else (i % 256 if i % 6 != 5 else i % 3,)))
+    keys += ["up"] * 7 + ["down"] * 3 + ["enter"] + ["up"] * 12 + ["home", ("char", 32), "enter", "up", "enter"]
+    recs2, _ = tc.run_script(["new"] + [tc.key_line(k) for k in keys], "c17-long")
+    evs = [{"seq": 0, "op": "new"}] + tc.to_events(recs2[1:], hist_tail=4)
+    tp = os.path.join(vlib.WORK, "tui", "c17-long.ndjson")
+    vlib.write_ndjson(tp, evs)
+    traces.append(tp)
     results = vlib.validate_traces(traces, cfg="TraceTui")
     nev = 0
     for tp, tr in zip(traces, results):
@@ -222,7 +233,7 @@ def run(tier, seed, replay):
                 "Home/End, Backspace/Delete) with EditorOk; each typed into the real session (real handle_event, real Interface drawn after every key) and the "
                 "editor state compared; command lines (all commands, three radices, case / spacing variants, values around 255/256, trailing garbage, "
                 "malformed lines) submitted to the real session and validated by TraceTui incl. the machine effect; random key streams at 8 terminal sizes and "
-                "a sweep over all sizes for 4 representative states and for 7 sessions with a loaded program file (short / long / multi-byte names)" % K,
+                "one session of more than 1000 submitted lines (history); a sweep over all sizes for 4 representative states and for 7 sessions with a loaded program file (short / long / multi-byte names)" % K,
     }
     return v.finish("model_checking", cov, ["TLC", "Tui.tla as the reading of the documented commands (DESIGN Appendix D); float spellings beyond digits[.digits<=3], "
                                             "0X/0B, successful `load` are unspecified (no-crash only)", "TestBackend instead of a real terminal; the binary is the debug build (overflow checks on)"])
